@@ -21,6 +21,22 @@ def cases(rng, tier):
         cpar = CosmoParam(cosmology=cosmology)
         vals = dict(h0=dec(rng, 60, 80, 1), om=dec(rng, 0.2, 0.4), w=dec(rng, -1.2, -0.8), w0=dec(rng, -1.2, -0.8), wa=dec(rng, -0.3, 0.3), ok=dec(rng, -0.1, 0.1))
         yield dict(name="param_map/%s/%d" % (cosmology, i), target=("CosmoParam", "cosmo"), obj=cpar, args=[vals], patch=astro)
+    # the constructor: the redshift range z_max over samples of 0..3 lenses (both / one source redshift), anchor above or below the sources;
+    # the lens sample and the parameter manager are replayed (with the two properties the constructor reads)
+    from hierarc.Likelihood.lens_sample_likelihood import LensSampleLikelihood
+    from hierarc.Sampling.ParamManager.param_manager import ParamManager
+    for i in range(n):
+        lst = []
+        for j in range(i % 4):
+            kwl = dict(z_lens=0.3, z_source=float(dec(rng, 0.6, 3.0)), likelihood_type="DdtGaussian", ddt_mean=4000.0, ddt_sigma=300.0)
+            if (i + j) % 3 == 1: kwl = dict(z_lens=0.3, z_source=float(dec(rng, 0.6, 2.0)), z_source2=float(dec(rng, 0.6, 4.0)), likelihood_type="DSPL", beta_dspl=0.8, sigma_beta_dspl=0.05)
+            lst.append(kwl)
+        kbz = dict(kwargs_lower_cosmo=dict(h0=0.0, om=0.05), kwargs_upper_cosmo=dict(h0=150.0, om=0.9))
+        yield dict(name="ctor_zmax/%d" % i, target=("CosmoLikelihood", "__init__"), obj=CosmoLikelihood.__new__(CosmoLikelihood),
+                   args=[lst, "FLCDM", dict(z_apparent_m_anchor=float(dec(rng, 0.05, 5.0))), kbz],
+                   patch=[("LensSampleLikelihood", CL, "LensSampleLikelihood"), ("ParamManager", CL, "ParamManager")],
+                   patch_methods=[("LensSampleLikelihood", LensSampleLikelihood, "gamma_pl_num"), ("ParamManager", ParamManager, "param_bounds")],
+                   post=lambda obj, out: obj, fuel=400)
     lenses = [dict(z_lens=0.5, z_source=1.5, likelihood_type="DdtGaussian", ddt_mean=4000.0, ddt_sigma=300.0)]
     for i in range(n):
         mode = ["sampled_interp", "sampled_exact", "fixed_interp", "fixed_exact", "tabulated"][i % 5]
